@@ -66,6 +66,15 @@ def read_exited(run, path):
     if p.returncode == 1 and "panic:" not in p.stderr and "HARNESS-FATAL" not in p.stderr:
         evs.append({"e": "cexit", "code": 1})
         return evs
+    m = re.search(r"fatal error: (concurrent map [a-z ]+)", p.stderr)
+    if m:
+        # the Go runtime aborted the process because two goroutines used one map without synchronisation: a data
+        # race it detects itself.  A verdict only when the faulting frame is the library's, not the harness's
+        frames = [l.split("(")[0] for l in p.stderr[m.end():].split("\n") if l and not l.startswith(("\t", " ", "goroutine", "runtime.", "internal/"))]
+        frames = [f for f in frames if "/" in f or f.startswith("main.")][:6]
+        if frames and frames[0].startswith("github.com/emicklei/go-restful"):
+            evs.append({"e": "crace", "frames": [m.group(1)] + frames, "lines": []})
+            return evs
     raise Infra("conc driver failed (exit %d):\n%s" % (p.returncode, (p.stdout + p.stderr)[-3000:]))
 
 
